@@ -221,11 +221,24 @@ def strip_meta(lines):
     return [_META.sub("", l) if "type_name=" in l else l for l in lines]
 
 
+CTOR_MISMATCH = []     # (cfg, ops up to and including the line, answer of the new() parser, answer of the default() parser)
+
+
 def run_impl(cfg, ops, keep_meta=False):
     """Implementation answers; if the process dies (abort, stack overflow) the missing answers are 'abort'."""
     rc, lines = run_stream(harness_bin(cfg), [], ops)
     if len(lines) < len(ops):
         lines += ["abort"] * (len(ops) - len(lines))
+    for i, l in enumerate(lines):
+        # the harness feeds every line to a parser built with AisParser::new() and to one built with Default::default()
+        if l.startswith("ctor-mismatch "):
+            a1, _, a2 = l[len("ctor-mismatch "):].partition(" ||| ")
+            if len(CTOR_MISMATCH) < 20:
+                j = i
+                while j > 0 and not ops[j].startswith("N "):
+                    j -= 1
+                CTOR_MISMATCH.append((cfg, ops[max(j, i - 400):i + 1], a1, a2))
+            lines[i] = a1
     return lines if keep_meta else strip_meta(lines)
 
 
@@ -322,6 +335,10 @@ class Report:
         # known findings are printed, never fatal
         for k in sorted(set(self.known)):
             out_lines.append(f"KNOWN-FINDING: property={self.prop} {k}")
+        for (cfg, cops, a1, a2) in CTOR_MISMATCH[:3]:
+            self.violations.insert(0, (f"{self.prop}: a parser built with Default::default() answers differently from one built "
+                                       f"with AisParser::new() on the same lines (new: {a1[:120]} / default: {a2[:120]})",
+                                       {"cfg": cfg, "ops": cops, "impl": a1, "impl_default_ctor": a2}))
         if self.violations:
             status = 1
             what, replay = self.violations[0]
